@@ -5,13 +5,13 @@ Import ListNotations.
 
 (* frame: for every node state, clock value and board message of round r, whatever the outcome
    (accepted, refused, operation put into the pool), the FSM dump and the signature store the
-   node holds for any other round r' are exactly what they were.  (partial: the composition into
-   "equal sub-logs give equal round states" is decided by the harness' interleaving / restart /
-   duplicate / Poll-replay runs, not yet by induction) *)
-Theorem C08_frame_partial :
+   node holds for any other round r' are exactly what they were.  (one half of the property; its
+   composition with locality into "equal sub-logs give equal round states" is
+   C08_round_state_is_function_of_sublog below) *)
+Theorem C08_frame :
   forall now st m r', m_round m <> r' -> res_same r' st (node_step now st (InMsg m)).
 Proof. exact board_message_frame. Qed.
-Print Assumptions C08_frame_partial.
+Print Assumptions C08_frame.
 
 (* determinism over schedules (generic in the step function - the node model's handler of a board
    message is one): two nodes started alike that consumed equally long prefixes of the board hold
